@@ -47,7 +47,8 @@ META = {
                     'pdhg with gamma_primal / gamma_dual acceleration (tau, sigma, theta are loop-carried and not exposed: resumption is not claimed by the API)',
                     'proximal_gradient with a callable, iteration-dependent relaxation lam(k)',
                     'landweber with omega=None (power-method estimate of the operator norm)',
-                    'accelerated_proximal_gradient, adam, douglas_rachford_pd, forward_backward_pd: loop-carried private state, no resumption API'],
+                    'accelerated_proximal_gradient, adam, douglas_rachford_pd, forward_backward_pd: loop-carried private state, no resumption API',
+                    'adupdates with array / element-valued inner step sizes (np.asarray views of elements are not modelled: seed C11-D is missed)'],
 }
 
 ADMM = 'odl.solvers.nonsmooth.admm:'
@@ -185,6 +186,9 @@ def unit_pair(P, mode, with_cb, cfg=None):
             fr, w = r['fr'], r['w']
             a, b = r['opt'], r['ref']
             ra, rb = a['run'], b['run']
+            if hasattr(P, 'extra_frame'):
+                for nm, e, orig in P.extra_frame(w):
+                    ctx.prove(st, '%s: caller\'s %s is not written to' % (mode, nm), eqv(low, content(e), orig), info)
             if mode == 'init':
                 sa, sb = P.state(ra.head, a['o'], 'opt'), P.state(rb.head, b['o'], 'ref')
                 ctx.prove(st, 'init: same exposed state variables', list(sa) == list(sb), info)
@@ -327,13 +331,18 @@ class AdupPair(Pair):
         else:
             Ys = [makers.tspace(I, st, 'Y%d' % i, 'real') for i in range(m)]
         w = dict(X=X, Ys=Ys, L=[AbsOp(I, 'L%d' % i, X, Ys[i], True) for i in range(m)], g=[AbsFunc(I, st, 'g%d' % i, Ys[i]) for i in range(m)],
-                 stepsize=makers.pos_scalar(st, 'stepsize'), inner=[makers.pos_scalar(st, 'inner%d' % i) for i in range(m)], niter=niter_sym(st),
+                 stepsize=makers.pos_scalar(st, 'stepsize'),
+                 inner=[(makers.pos_elem(st, Ys[i], 'inner%d' % i) if cfg.get('inner') == 'elem' else makers.pos_scalar(st, 'inner%d' % i)) for i in range(m)], niter=niter_sym(st),
                  random=bool(cfg.get('random')), cfg=cfg)
         st.ext_cuts = {'numpy.random.permutation': PermOracle(st, m)}
         return w
 
     def objs(self, w):
         return {'x': w['X'].element(cont=var('x0'))}
+
+    def extra_frame(self, w):
+        """caller-owned data that no version may write to: element-valued inner step sizes"""
+        return [(('inner_stepsizes[%d]' % i), e, var('inner%d' % i)) for i, e in enumerate(w['inner']) if isinstance(e, ip.Obj)]
 
     def call(self, w, o, ver, cb):
         st_oracle = None
